@@ -148,7 +148,9 @@ def gen_document(rng, version):
                     media = rng.sample(["application/json", "application/xml", "text/plain", "application/x-www-form-urlencoded"], rng.randint(1, 2))
                     op["requestBody"] = {"required": rng.random() < 0.7, "content": {m: {"schema": copy.deepcopy(body_schema)} for m in media}}
                 else:
-                    op["consumes"] = rng.sample(["application/json", "application/xml"], rng.randint(1, 2))
+                    if rng.random() < 0.7:
+                        op["consumes"] = rng.sample(["application/json", "application/xml"], rng.randint(1, 2))
+                    # (else: the document-level `consumes` applies; an operation-level list replaces it)
                     op.setdefault("parameters", []).append({"name": "payload", "in": "body", "required": True, "schema": copy.deepcopy(body_schema)})
             if rng.random() < 0.3:
                 op["security"] = [{rng.choice(["ApiKeyHeader", "ApiKeyQuery", "Basic"]): []}]
@@ -174,6 +176,7 @@ def gen_document(rng, version):
         comp["schemas"] = components_schemas
         comp["securitySchemes"] = schemes
     else:
+        doc["consumes"] = rng.choice([["text/plain"], ["application/xml", "application/json"], ["application/json"]])
         doc["parameters"] = components_params
         doc["definitions"] = components_schemas
         doc["securityDefinitions"] = schemes
